@@ -36,6 +36,7 @@ type PEv struct {
 	K  string `json:"k"` // end wait park panic timeout
 	T  int    `json:"t,omitempty"`
 	Ts []int  `json:"ts,omitempty"`
+	S  int    `json:"s,omitempty"` // submitted: how many times Submit has returned
 	M  string `json:"m,omitempty"`
 }
 
@@ -69,6 +70,8 @@ func coqPEvs(l []PEv) string {
 			s[i] = "EvWaitReturn 0"
 		case "park":
 			s[i] = "EvPark " + coqInts(e.Ts)
+		case "submitted":
+			s[i] = fmt.Sprintf("EvSubmitted %d", e.S)
 		default:
 			s[i] = "EvStart 99999" // a panic or a hang: no event of the model
 		}
@@ -84,12 +87,14 @@ func runPoolGated(sc PScen) []PEv {
 	for i, t := range sc.Rel {
 		rel[i] = 16 * t
 	}
+	var returned int32
 	g := newGateCtl(nil, rel)
 	g.onPark = func(_ int, codes []int) {
 		ts := make([]int, len(codes))
 		for i, c := range codes {
 			ts[i] = c / 16
 		}
+		add(PEv{K: "submitted", S: int(atomic.LoadInt32(&returned))})
 		add(PEv{K: "park", Ts: ts})
 	}
 	syncCh := make(chan chan struct{}, 1)
@@ -121,6 +126,7 @@ func runPoolGated(sc PScen) []PEv {
 					g.park(0, t, 0)
 					add(PEv{K: "end", T: t})
 				})
+				atomic.AddInt32(&returned, 1)
 			case "wait":
 				pool.Wait()
 				add(PEv{K: "wait"})
@@ -259,6 +265,89 @@ func runPoolStress(r *rng, size, nsub, rounds, perRound int) PStress {
 		o.MaxRunning = int(maxRunning)
 	}()
 	// after Wait + Close the pool's goroutines terminate
+	deadline := time.Now().Add(2 * time.Second)
+	for workerGoroutines() > before && time.Now().Before(deadline) {
+		time.Sleep(200 * time.Microsecond)
+	}
+	if workerGoroutines() > before {
+		o.NoLeak = false
+	}
+	return o
+}
+
+// runBarrierProbe: Wait running while ANOTHER goroutine keeps submitting.  One task is held inside
+// its function by the harness; Wait is called; then k short tasks are submitted from a second
+// goroutine and complete.  Wait must not return while the held task is unfinished - whatever the
+// timing, a return observed before the harness lets the task go is a violation (the pause only
+// gives a wrong Wait the time to return).
+func runBarrierProbe(size, k int) PStress {
+	o := PStress{Size: size, Submitters: 2, Rounds: 1, Once: true, Barrier: true, NoPanic: true, NoLeak: true, Tasks: k + 1}
+	o.Workers = size
+	if size <= 0 {
+		o.Workers = 1
+	}
+	before := workerGoroutines()
+	func() {
+		defer func() {
+			if p := recover(); p != nil {
+				o.NoPanic = false
+			}
+		}()
+		pool := flyt.NewWorkerPool(size)
+		gate := make(chan struct{})
+		var heldDone, released int32
+		counts := make([]int32, k+1)
+		pool.Submit(func() {
+			<-gate
+			atomic.StoreInt32(&heldDone, 1)
+			atomic.AddInt32(&counts[0], 1)
+		})
+		waitRet := make(chan struct{})
+		go func() {
+			pool.Wait()
+			// Wait has returned: the held task must have finished (it can only finish after release)
+			if atomic.LoadInt32(&released) == 0 || atomic.LoadInt32(&heldDone) == 0 {
+				o.Barrier = false
+			}
+			close(waitRet)
+		}()
+		time.Sleep(3 * time.Millisecond) // let Wait begin
+		var shorts sync.WaitGroup
+		sub := make(chan struct{})
+		go func() {
+			defer close(sub)
+			for i := 1; i <= k; i++ {
+				i := i
+				shorts.Add(1)
+				pool.Submit(func() { atomic.AddInt32(&counts[i], 1); shorts.Done() })
+			}
+		}()
+		// with one worker the short tasks queue up behind the held one: do not wait for them then
+		if o.Workers > 1 {
+			<-sub
+			shorts.Wait()
+		}
+		select {
+		case <-waitRet:
+		case <-time.After(30 * time.Millisecond):
+		}
+		atomic.StoreInt32(&released, 1)
+		close(gate)
+		select {
+		case <-waitRet:
+		case <-time.After(10 * time.Second):
+			o.Barrier = false // Wait never returned
+		}
+		<-sub
+		pool.Wait()
+		pool.Close()
+		for i := range counts {
+			if atomic.LoadInt32(&counts[i]) != 1 {
+				o.Once = false
+			}
+		}
+		o.MaxRunning = 0
+	}()
 	deadline := time.Now().Add(2 * time.Second)
 	for workerGoroutines() > before && time.Now().Before(deadline) {
 		time.Sleep(200 * time.Microsecond)
@@ -485,8 +574,20 @@ func poolStressMain(prop, tier string, seed uint64, out, replay string) error {
 			}
 		}
 	}
+	// Wait concurrent with submissions from another goroutine
+	for rep := 0; rep < reps; rep++ {
+		for _, size := range []int{1, 2, 3, 4, 8} {
+			k := 1 + r.intn(3*size+4)
+			o := runBarrierProbe(size, k)
+			jl = append(jl, map[string]any{"id": id, "scen": id, "obs": o, "tags": []string{fmt.Sprintf("size=%d", size), "wait_while_others_submit"}})
+			cases = append(cases, coqCase{id: id, scen: fmt.Sprint(id), obs: o.Coq()})
+			st.count("wait_while_others_submit")
+			st.DistinctNontrivial++
+			id++
+		}
+	}
 	st.Evaluations = len(cases)
-	st.Scope = "pool sizes -1..16 x 1, 2, 4 submitting goroutines x 1..3 Submit/Wait rounds x up to 500 tasks with random durations, built with the race detector; per-task execution counters, plain writes read after Wait, running-task gauge, worker goroutines after Close"
+	st.Scope = "pool sizes -1..16 x 1, 2, 4 submitting goroutines x 1..3 Submit/Wait rounds x up to 500 tasks with random durations, built with the race detector; per-task execution counters, plain writes read after Wait, running-task gauge, worker goroutines after Close; plus Wait called while a task is held in flight and a second goroutine submits and completes further tasks (Wait must not return before the held task is let go)"
 	st.Rule = "seeded stress runs; non-trivial when there are more tasks than the queue holds"
 	n, err := writeShards(out, prop, "Pool PoolCorr", "xscen", "pstress", "spec_C12_stress", "spec_C12_stress", cases, nil)
 	if err != nil {
